@@ -816,6 +816,25 @@ class Inliner:
         self._local_defs = {st.name: st for st in all_defs if not stores.get(st.name) and names_count[st.name] == 1
                             and not st.decorator_list and not any(isinstance(x, (ast.Nonlocal, ast.Global)) for x in ast.walk(st))}
         new.body = self._block(new.body, self.depth) or [ast.Pass()]
+        # a local closure that was read through at every call and is not mentioned any more is dropped
+        if self._local_defs:
+            mentioned = {n.id for n in ast.walk(new) if isinstance(n, ast.Name)}
+
+            def prune(stmts):
+                out = []
+                for st in stmts:
+                    if isinstance(st, ast.FunctionDef) and st.name in self._local_defs and st.name not in mentioned and st.name in self.inlined:
+                        continue
+                    for fld in ("body", "orelse", "finalbody"):
+                        sub = getattr(st, fld, None)
+                        if isinstance(sub, list) and not isinstance(st, (ast.FunctionDef, ast.ClassDef)):
+                            setattr(st, fld, prune(sub) or ([ast.Pass()] if fld == "body" else []))
+                    if isinstance(st, ast.Try):
+                        for h in st.handlers:
+                            h.body = prune(h.body) or [ast.Pass()]
+                    out.append(st)
+                return out
+            new.body = prune(new.body) or [ast.Pass()]
         ast.fix_missing_locations(new)
         number(new)
         return new
